@@ -48,6 +48,10 @@ void add(fault_stats_t& a, const fault_stats_t& b)
 
 verdict_t to_verdict(const finding_t& f)
 {
+    if (f.kind == 2 && std::getenv("C15_PRINT_KNOWN") != nullptr)
+    {
+        std::fprintf(stderr, "C15_KNOWN %s %s\n", f.sig.c_str(), f.msg.c_str());
+    }
     return f.kind == 1 ? verdict_t::violation(f.sig, f.msg) : f.kind == 2 ? verdict_t::known(f.sig, f.msg) : verdict_t::ok();
 }
 
@@ -225,55 +229,8 @@ verdict_t check_tensor_typed(const tcase_t& c, ctx_t& ctx)
     }
 
     const auto observe = [](const tensor_type& t) { return tensor_bits(t); };
-
-    subject_t s;
-    s.family = "tensor";
-    s.label  = cat("tensor<", type_names[c.type], ",", R, "> dims [", [&] { std::string d; for (auto x : c.dims) { d += cat(x, " "); } return d; }(), "]");
-    s.bytes  = image_of(original);
-    s.state  = observe(original);
-    s.images = {s.bytes};
-    s.free_function = true;
-    const auto make_reader = [observe](int prefill) -> c15::reader_t
-    {
-        return [observe, prefill](const char* p, size_t n, bool want_state)
-        {
-            return guarded(
-                [&](outcome_t& o)
-                {
-                    tensor_type t;
-                    if (prefill != 0)
-                    {
-                        // the target already holds something else (other shape, other values)
-                        nano::tensor_dims_t<R> other;
-                        for (size_t i = 0; i < R; ++i)
-                        {
-                            other[i] = prefill == 1 ? 2 : static_cast<nano::tensor_size_t>(1 + i % 2);
-                        }
-                        t.resize(other);
-                        std::memset(t.data(), 0x5a, static_cast<size_t>(t.size()) * sizeof(T));
-                    }
-                    view_buf_t   buf(p, n);
-                    std::istream in(&buf);
-                    if (!::nano::read(in, t) || !in)
-                    {
-                        o.failed = true;
-                        o.how    = 1;
-                        return;
-                    }
-                    o.consumed  = static_cast<long>(in.tellg());
-                    o.rewritten = image_of(t);
-                    if (want_state)
-                    {
-                        o.state = observe(t);
-                    }
-                });
-        };
-    };
-    s.read = make_reader(c.prefill);
-    if (c.prefill != 0)
-    {
-        s.read_pristine = make_reader(0);
-    }
+    auto       s       = tensor_subject<T, R>(original, c.prefill,
+                                              cat("tensor<", type_names[c.type], ",", R, "> dims [", [&] { std::string d; for (auto x : c.dims) { d += cat(x, " "); } return d; }(), "]"));
 
     // the documented wire layout: version, rank, dims (int32), sizeof(scalar), hash(content), content
     {
@@ -642,8 +599,12 @@ verdict_t check_vcase(const vcase_t& c, ctx_t& ctx)
                 break;
             }
             }
-            catch (const std::exception&)
+            catch (const std::exception& e)
             {
+                if (std::getenv("C15_PRINT_KNOWN") != nullptr)
+                {
+                    std::fprintf(stderr, "C15_REJECTED %s\n", e.what());
+                }
                 // the constructor re-validates the state built above (parameter validity is C19's subject)
                 return verdict_t::discard("parameter-construction-rejected");
             }
@@ -730,13 +691,6 @@ rc::Gen<ccase_t> gen_ccase()
                         });
 }
 
-template <class tbase>
-std::string pick_id(int index)
-{
-    const auto ids = tbase::all().ids();
-    return ids[static_cast<size_t>(index) % ids.size()];
-}
-
 // member API + free-function API of one factory object
 template <class tbase>
 finding_t examine_factory_object(const char* family, const std::unique_ptr<tbase>& object, std::function<std::string(const tbase&)> observe_full,
@@ -781,134 +735,6 @@ finding_t examine_factory_object(const char* family, const std::unique_ptr<tbase
         known = known.kind != 0 ? known : f;
     }
     return known;
-}
-
-std::vector<bytes_t> images_of(const nano::wlearner_t& w)
-{
-    std::vector<bytes_t> r;
-    if (const auto* single = dynamic_cast<const nano::single_feature_wlearner_t*>(&w); single != nullptr)
-    {
-        r.push_back(image_of(single->tables()));
-    }
-    if (const auto* table = dynamic_cast<const nano::table_wlearner_t*>(&w); table != nullptr)
-    {
-        r.push_back(image_of(table->hashes()));
-        r.push_back(image_of(table->hash2tables()));
-    }
-    if (const auto* dtree = dynamic_cast<const nano::dtree_wlearner_t*>(&w); dtree != nullptr)
-    {
-        r.push_back(image_of(dtree->tables()));
-        r.push_back(image_of(dtree->features()));
-    }
-    return r;
-}
-
-std::vector<bytes_t> images_of(const nano::gboost_model_t& m)
-{
-    std::vector<bytes_t> r = {image_of(m.bias())};
-    for (const auto* list : {&m.wlearners(), &m.prototypes()})
-    {
-        for (const auto& w : *list)
-        {
-            for (auto& image : images_of(*w))
-            {
-                r.push_back(std::move(image));
-            }
-        }
-    }
-    return r;
-}
-
-std::string dtree_nodes(const nano::wlearner_t& w)
-{
-    std::string r;
-    if (const auto* dtree = dynamic_cast<const nano::dtree_wlearner_t*>(&w); dtree != nullptr)
-    {
-        r += cat(" nodes=", dtree->nodes().size(), ":");
-        for (const auto& node : dtree->nodes())
-        {
-            r += cat(node.m_feature, "/", dbits(node.m_threshold), "/", node.m_next, "/", node.m_table, ";");
-        }
-    }
-    return r;
-}
-
-// weak learner subject (member API); `data` may be null (unfitted object);
-// reuse: the stream is read into a copy of the (fitted) object instead of a pristine one
-subject_t wlearner_subject(const nano::wlearner_t& w, const data_t* data, bool with_predictions, bool reuse = false)
-{
-    const auto id      = w.type_id();
-    const auto observe = [data, with_predictions](const nano::wlearner_t& x) { return observe_wlearner(x, with_predictions ? data : nullptr) + dtree_nodes(x); };
-    auto       s       = member_subject<nano::wlearner_t>("wlearner", cat("wlearner ", id), w, [id] { return nano::wlearner_t::all().get(id); }, observe);
-    if (reuse)
-    {
-        const std::shared_ptr<nano::wlearner_t> keep = w.clone();
-        auto r = member_subject<nano::wlearner_t>("wlearner", cat("wlearner ", id, " (read into a fitted object)"), w, [keep] { return keep->clone(); }, observe);
-        r.read_pristine = s.read;
-        s               = std::move(r);
-    }
-    s.images = images_of(w);
-    return s;
-}
-
-subject_t linear_subject(const nano::linear_t& m, const data_t* data, bool reuse = false)
-{
-    const auto id      = m.type_id();
-    const auto observe = [data](const nano::linear_t& x) { return observe_linear(x, data); };
-    auto       s       = member_subject<nano::linear_t>("linear", cat("linear ", id), m, [id] { return nano::linear_t::all().get(id); }, observe);
-    if (reuse)
-    {
-        const std::shared_ptr<nano::linear_t> keep = m.clone();
-        auto r = member_subject<nano::linear_t>("linear", cat("linear ", id, " (read into a fitted object)"), m, [keep] { return keep->clone(); }, observe);
-        r.read_pristine = s.read;
-        s               = std::move(r);
-    }
-    s.images = {image_of(m.bias()), image_of(m.weights())};
-    return s;
-}
-
-subject_t gboost_subject(const nano::gboost_model_t& m, const data_t* data, bool with_predictions, bool reuse = false)
-{
-    const auto observe = [data, with_predictions](const nano::gboost_model_t& x)
-    {
-        auto r = observe_gboost(x, with_predictions ? data : nullptr);
-        for (const auto& w : x.wlearners())
-        {
-            r += dtree_nodes(*w);
-        }
-        return r;
-    };
-    const auto label = cat("gboost model, ", m.wlearners().size(), " weak learners, ", m.prototypes().size(), " prototypes");
-    auto       s     = member_subject<nano::gboost_model_t>("gboost", label, m, [] { return std::make_unique<nano::gboost_model_t>(); }, observe);
-    if (reuse)
-    {
-        const auto keep = std::make_shared<nano::gboost_model_t>(m);
-        auto       r    = member_subject<nano::gboost_model_t>("gboost", label + " (read into a fitted object)", m, [keep] { return std::make_unique<nano::gboost_model_t>(*keep); }, observe);
-        r.read_pristine = s.read;
-        s               = std::move(r);
-    }
-    s.images = images_of(m);
-    s.nested = static_cast<int>(m.wlearners().size() + m.prototypes().size());
-    return s;
-}
-
-nano::rwlearners_t make_prototypes(const std::vector<int>& protos, const std::vector<double>& u)
-{
-    nano::rwlearners_t r;
-    size_t             shift = 0;
-    for (const auto p : protos)
-    {
-        auto w = nano::wlearner_t::all().get(pick_id<nano::wlearner_t>(p));
-        // rotate the choices so that two prototypes of one kind get different parameters
-        std::vector<double> mine(u);
-        if (!mine.empty())
-        {
-            std::rotate(mine.begin(), mine.begin() + static_cast<long>(++shift % mine.size()), mine.end());
-        }
-        randomize(*w, mine);
-        r.push_back(std::move(w));
-    }
-    return r;
 }
 
 verdict_t check_ccase(const ccase_t& c, ctx_t& ctx)
@@ -1110,7 +936,7 @@ rc::Gen<mcase_t> gen_mcase()
             o.min_inputs    = (kind >= 3 && kind <= 6) ? 2 : 1;
             o.max_inputs    = 4;
             o.max_classes   = 3;
-            o.target_kind   = many ? (std::get<1>(kt) == 4 ? 1 : std::get<1>(kt)) : std::get<1>(kt);
+            o.target_kind   = many ? ((std::get<1>(kt) == 4 || kind == 12) && std::get<1>(kt) != 3 ? 1 : std::get<1>(kt)) : std::get<1>(kt);
             // complete data for the linear models; also for gboost: a categorical input without any value inside one of
             // the folds makes the table weak learners index an empty score table (crash inside fitting, C10's subject)
             o.allow_missing = kind < 8;
@@ -1263,7 +1089,7 @@ verdict_t check_mcase(const mcase_t& c, ctx_t& ctx)
             if (auto* depth = w->parameter_if("wlearner::dtree::max_depth"); depth != nullptr)
             {
                 // deeper trees end in one-sample nodes on this little data and report "no fit"
-                *depth                                   = static_cast<int64_t>(1 + c.rng % 3);
+                *depth                                   = static_cast<int64_t>(1 + (c.rng % 4 == 3 ? 2 : c.rng % 2));
                 w->parameter("wlearner::dtree::min_split") = 10;
             }
             nano::tensor4d_t gradients(nano::cat_dims(dataset.samples(), dataset.target_dims()));
